@@ -12,7 +12,7 @@
    these atomic steps is not proved; it is tied to the source by the extracted
    lock table and call shapes (C07_structure, C07_lock_discipline) and
    exercised by the concurrent layer of the correspondence check. *)
-From Moc Require Import Base Match MatchProofs Router RouterProofs.
+From Moc Require Import Base Match MatchProofs Router RouterProofs RouterSpec RouterHist RouterHistBase RouterHistOracle RouterHistDet RouterHistLive.
 From Moc.Gen Require Import GenRouter.
 From Coq Require Import Sorted.
 Open Scope Z_scope.
@@ -313,4 +313,170 @@ Example C07_ex_new_connection_waits :
   let s := run ex_s0 [LRun c0; LOp c2 (OReq ex_a [empty_filter]); LRun c2; LRun c2] in
   c_pc (r_cs s 2%nat) = [IRegAdd; ISubAdd ex_a [empty_filter]; IEose ex_a] /\ enabled s (LRun c2) = false /\
   enabled s (LRun c0) = true.
+Proof. vm_compute. repeat split. Qed.
+
+(* ------------------------------------------------------------------ *)
+(** ORACLE SOUNDNESS.  The boolean oracles of RouterSpec.v (the ones the
+    correspondence check applies to the histories recorded from the real
+    RouterHandler) never raise a false alarm on the model.
+
+    [model_history buf N tr] is the timed history of schedule [tr] over
+    connections 0..N-1 (RouterHist.v): the clock is the step index, an
+    operation begins when its LOp label is accepted and ends when the
+    connection's program is empty again, a message is stamped with the step
+    that put it into the connection's output.
+
+    Hypotheses: the schedule mentions only connections below N; events have no
+    empty tag and filters no repeated tag key (the C11 / C10 gates, under
+    which the model's matcher is the NIP-01 predicate, C02); the schedule
+    ends quiescent (every program finished, every open connection has read
+    what was queued for it — the harness's final flush); every accepted
+    publication carries its own event id (the router does not de-duplicate,
+    the oracles identify a publication by its id). *)
+Theorem C07_model_satisfies_timed_oracle : forall buf N tr,
+  conns_below N tr -> Forall wf_label tr ->
+  quiescent (run (r_init buf) tr) ->
+  uniq_pub_ids (model_history buf N tr) ->
+  timed_oracle (model_history buf N tr) = true.
+Proof.
+  intros buf N tr HN Hwf Q U. apply model_satisfies_timed_oracle; try assumption.
+  now rewrite irun_s.
+Qed.
+Print Assumptions C07_model_satisfies_timed_oracle.
+
+(** the same, clause by clause *)
+Theorem C07_model_satisfies_oracle_clauses : forall buf N tr,
+  conns_below N tr -> Forall wf_label tr ->
+  quiescent (run (r_init buf) tr) ->
+  uniq_pub_ids (model_history buf N tr) ->
+  let h := model_history buf N tr in
+  replies_ok h = true /\ drained_ok h = true /\ must_not_ok h = true /\ must_ok h = true /\
+  once_ok h = true /\ order_ok h = true.
+Proof.
+  intros buf N tr HN Hwf Q U h.
+  pose proof (C07_model_satisfies_timed_oracle buf N tr HN Hwf Q U) as T. fold h in T. unfold timed_oracle in T.
+  destruct (replies_ok h); [|discriminate]. destruct (drained_ok h); [|discriminate].
+  destruct (must_not_ok h); [|discriminate]. destruct (must_ok h); [|discriminate].
+  destruct (once_ok h); [|discriminate]. destruct (order_ok h); [|discriminate]. repeat split.
+Qed.
+
+(** DETERMINISTIC LAYER.  For every schedule that runs one client operation
+    at a time (an operation is accepted only when no connection's goroutine
+    has anything left to do; forwarder timing and map iteration order are
+    free) the stricter [det_oracle] — timed clauses plus the exact
+    expectation per publication — accepts the model's history as well. *)
+Theorem C07_model_satisfies_det_oracle_solo : forall buf N tr,
+  conns_below N tr -> Forall wf_label tr ->
+  solo_sched (r_init buf) tr ->
+  quiescent (run (r_init buf) tr) ->
+  uniq_pub_ids (model_history buf N tr) ->
+  det_oracle (model_history buf N tr) = true.
+Proof.
+  intros buf N tr HN Hwf Hs Q U. apply model_satisfies_det_oracle; try assumption.
+  now rewrite irun_s.
+Qed.
+Print Assumptions C07_model_satisfies_det_oracle_solo.
+
+(** ... in particular the canonical schedule of the deterministic layer
+    ([det_schedule], RouterHist.v: every script item is run to its end by the
+    connection's own goroutine, then every reader that is not paused reads
+    what is queued; at the end all readers read).  It always runs to
+    completion: one operation at a time, quiescent at the end. *)
+Theorem C07_det_schedule_runs : forall buf N script,
+  script_ok N script ->
+  det_history buf N script = model_history buf N (det_schedule buf N script) /\
+  conns_below N (det_schedule buf N script) /\ Forall wf_label (det_schedule buf N script) /\
+  solo_sched (r_init buf) (det_schedule buf N script) /\
+  quiescent (run (r_init buf) (det_schedule buf N script)).
+Proof. exact det_schedule_ok. Qed.
+Print Assumptions C07_det_schedule_runs.
+
+(** For every script of client operations, reader pauses and resumes over any
+    number of connections (connections below N, inputs past the C10/C11
+    gates, every accepted publication with its own id) the observation the
+    model produces is accepted by [det_oracle]. *)
+Theorem C07_model_satisfies_det_oracle : forall buf N script,
+  script_ok N script ->
+  uniq_pub_ids (det_history buf N script) ->
+  det_oracle (det_history buf N script) = true.
+Proof. exact model_satisfies_det_oracle_script. Qed.
+Print Assumptions C07_model_satisfies_det_oracle.
+
+(* ------------------------------------------------------------------ *)
+(** Non-vacuity of the oracle theorems, and the converse: tampered
+    observations are REJECTED.  A script over three connections, buflen 2:
+    connection 1 subscribes "a" (match-all) and "b" (another author),
+    connection 2 subscribes "a"; connection 0 publishes 49 and 50; connection
+    2 closes "a" (acknowledged by a COUNT, as in the harness); connection 0
+    publishes 51. *)
+Definition ex_fq : rfilter := mkFilter None (Some [[113]%N]) None None None None None.
+
+Definition ex_script : list sitem :=
+  [SOp c1 (OReq ex_a [empty_filter]); SOp c1 (OReq ex_b [ex_fq]); SOp c2 (OReq ex_a [empty_filter]);
+   SOp c0 (OEvent (ex_e 49)); SOp c0 (OEvent (ex_e 50)); SOp c2 (OClose ex_a); SOp c2 (OCount ex_a);
+   SOp c0 (OEvent (ex_e 51))].
+
+Definition ex_h : history := det_history 2%nat 3%nat ex_script.
+
+Example C07_ex_oracle_hypotheses : script_ok 3%nat ex_script /\ uniq_pub_ids ex_h.
+Proof.
+  split.
+  - unfold script_ok, ex_script. repeat (apply Forall_cons; [|]); try apply Forall_nil; cbn; (split; [unfold c0, c1, c2; lia|]);
+      repeat constructor; try discriminate.
+  - unfold uniq_pub_ids. vm_compute. repeat constructor; cbn; intuition discriminate.
+Qed.
+
+(** what the model produces: connection 1 gets 49, 50, 51 under "a" only,
+    connection 2 gets 49 and 50 and, after its CLOSE, not 51 *)
+Example C07_ex_oracle_history :
+  List.map (List.map (fun ms : xmsg * Z => fst ms)) (hi_outs ex_h) =
+  [[XOk [49]%N true true; XOk [50]%N true true; XOk [51]%N true true];
+   [XEose ex_a; XEose ex_b; XEvent ex_a (ex_e 49); XEvent ex_a (ex_e 50); XEvent ex_a (ex_e 51)];
+   [XEose ex_a; XEvent ex_a (ex_e 49); XEvent ex_a (ex_e 50); XCount ex_a 0]] /\
+  sequential ex_h = true /\ det_oracle ex_h = true.
+Proof. vm_compute. repeat split. Qed.
+
+(** tampering with the output of one connection *)
+Definition map_at {A} (x : nat) (f : A -> A) (l : list A) : list A :=
+  List.map (fun ia : nat * A => if Nat.eqb (fst ia) x then f (snd ia) else snd ia) (combine (seq 0 (length l)) l).
+
+Definition tamper (h : history) (x : nat) (f : list (xmsg * Z) -> list (xmsg * Z)) : history :=
+  mkHist (hi_buf h) (hi_ops h) (map_at x f (hi_outs h)) (hi_drained h).
+
+(** a removed copy: connection 1 does not get 50 -> MUST fails *)
+Definition t_removed := tamper ex_h 1%nat (fun l => firstn 3 l ++ skipn 4 l).
+(** a duplicate: connection 1 gets 50 twice -> AT MOST ONCE fails *)
+Definition t_duplicate := tamper ex_h 1%nat (fun l => firstn 4 l ++ [(XEvent ex_a (ex_e 50), 39)] ++ skipn 4 l).
+(** a reordered pair: connection 1 gets 50 before 49 -> ORDER fails *)
+Definition t_reordered :=
+  tamper ex_h 1%nat (fun l => firstn 2 l ++ [(XEvent ex_a (ex_e 50), 38); (XEvent ex_a (ex_e 49), 39)] ++ skipn 4 l).
+(** a relabelled copy: connection 1 gets 50 under "b", whose filter does not match -> MUST NOT fails *)
+Definition t_relabelled := tamper ex_h 1%nat (fun l => firstn 3 l ++ [(XEvent ex_b (ex_e 50), 38)] ++ skipn 4 l).
+(** a copy for a closed subscription: connection 2 gets 51 under "a" after its CLOSE -> MUST NOT fails *)
+Definition t_closed := tamper ex_h 2%nat (fun l => l ++ [(XEvent ex_a (ex_e 51), 57)]).
+(** a missing reply: connection 0 never sees the OK of 51 -> REPLIES fails *)
+Definition t_noreply := tamper ex_h 0%nat (fun l => firstn 2 l).
+
+Example C07_ex_oracle_rejects_tampering :
+  (must_ok t_removed = false /\ timed_oracle t_removed = false) /\
+  (once_ok t_duplicate = false /\ timed_oracle t_duplicate = false) /\
+  (order_ok t_reordered = false /\ timed_oracle t_reordered = false) /\
+  (must_not_ok t_relabelled = false /\ timed_oracle t_relabelled = false) /\
+  (must_not_ok t_closed = false /\ timed_oracle t_closed = false) /\
+  (replies_ok t_noreply = false /\ timed_oracle t_noreply = false) /\
+  det_oracle t_removed = false /\ det_oracle t_duplicate = false /\ det_oracle t_reordered = false /\
+  det_oracle t_relabelled = false /\ det_oracle t_closed = false /\ det_oracle t_noreply = false.
+Proof. vm_compute. repeat split. Qed.
+
+(** the exact-expectation clause alone catches what the timed clauses excuse:
+    with the CLOSE not acknowledged the timed oracle cannot know that it took
+    effect before 51 was published and accepts a copy of 51 for connection 2;
+    the deterministic oracle (sequential history) rejects it *)
+Definition ex_script2 : list sitem :=
+  [SOp c2 (OReq ex_a [empty_filter]); SOp c2 (OClose ex_a); SOp c0 (OEvent (ex_e 51))].
+Definition ex_h2 : history := det_history 2%nat 3%nat ex_script2.
+Definition t_closed2 := tamper ex_h2 2%nat (fun l => l ++ [(XEvent ex_a (ex_e 51), 30)]).
+
+Example C07_ex_exact_clause :
+  det_oracle ex_h2 = true /\ timed_oracle t_closed2 = true /\ det_oracle t_closed2 = false.
 Proof. vm_compute. repeat split. Qed.
